@@ -196,7 +196,9 @@ func (b *Buffer) ServeHTTP(w http.ResponseWriter, req *http.Request) {
 		}
 
 		var reader multibuf.MultiReader
-		if bw.expectBody(outReq) {
+		// A handler that wrote nothing has an empty body: there is nothing to read back
+		// (the write-once buffer reports "no data ready" in that case).
+		if bw.expectBody(outReq) && bw.written {
 			rdr, err := writer.Reader()
 			if err != nil {
 				b.log.Error("vulcand/oxy/buffer: failed to read response, err: %v", err)
@@ -269,6 +271,7 @@ type bufferWriter struct {
 	buffer         multibuf.WriterOnce
 	responseWriter http.ResponseWriter
 	hijacked       bool
+	written        bool
 	writeError     error
 	log            utils.Logger
 }
@@ -304,6 +307,7 @@ func (b *bufferWriter) Header() http.Header {
 }
 
 func (b *bufferWriter) Write(buf []byte) (int, error) {
+	b.written = true
 	length, err := b.buffer.Write(buf)
 	if err != nil {
 		// Since go1.11 (https://github.com/golang/go/commit/8f38f28222abccc505b9a1992deecfe3e2cb85de)
